@@ -57,6 +57,12 @@ def gen_tdm(rng, templates=False):
     if rng.random() < 0.4:
         lines.append("float array B =\n    0.5, 1.5\n    2.5, 3.5\n")
         info["arrays"]["B"] = [0.5, 1.5, 2.5, 3.5]
+    plike = None
+    if rng.random() < 0.25:
+        # an ordinary array whose name only starts like a p-array: by value, never by name
+        plike = rng.choice(["p0_phase", "p1x", "p12a"])
+        lines.append("float array %s =\n    0.25, 0.75\n" % plike)
+        info["arrays"][plike] = [0.25, 0.75]
     # (templates) a p-array declared wholesale by one shaped parameter: still passed by name
     info["symbolic_parrays"] = {}
     if templates and rng.random() < 0.35:
@@ -76,8 +82,11 @@ def gen_tdm(rng, templates=False):
             r = rng.random()
             if pnames and r < 0.5:
                 pn = rng.choice(pnames)
-                pos.append(pn)
+                # redundant brackets or a unary plus around the whole reference do not change what it denotes
+                pos.append(rng.choice([pn, pn, pn, "(%s)" % pn, "+%s" % pn]))
                 info["uses"].append(("pos", pn))
+            elif plike and r < 0.58:
+                pos.append(plike)
             elif "x" in info["scalars"] and r < 0.65:
                 pos.append("x")
             elif templates and r < 0.8:
@@ -86,7 +95,7 @@ def gen_tdm(rng, templates=False):
                 pos.append("2*{%s}" % q)
             elif declared and r < 0.9:
                 # a STRING that happens to be the name of a declared (non-p) variable stays a string
-                pos.append('"%s"' % rng.choice(declared))
+                pos.append('"%s"' % rng.choice(declared + ["p0x", "p12 ab", "p1_", "p"]))
             else:
                 pos.append(rng.choice(["0.5", "1", "0.0", "2.5"]))
         if declared and rng.random() < 0.15:
@@ -94,7 +103,7 @@ def gen_tdm(rng, templates=False):
         if rng.random() < 0.4:
             if pnames and rng.random() < 0.6:
                 pn = rng.choice(pnames)
-                kw.append("phi=%s" % pn)
+                kw.append("phi=%s" % rng.choice([pn, pn, "(%s)" % pn, "+%s" % pn]))
                 info["uses"].append(("kw", pn))
             else:
                 kw.append("phi=%s" % rng.choice(["0.5", "x" if "x" in info["scalars"] else "1"]))
@@ -168,7 +177,7 @@ def check_tdm(text, info, roundtrip=True):
     ic2, obj2 = core.impl_canon_loads(t2)
     if ic2[0] != "prog":
         return "serialised tdm program is refused with %s: %r; text %r" % (ic2[1:3], obj2, t2[:400])
-    d = common.cmp_impl(ic[1], ic2[1], exact=True, check_vars=True)
+    d = common.cmp_impl(ic[1], ic2[1], exact=True, check_vars="hoisting")
     if d:
         return "after dumps/loads: %s; text %r" % ("; ".join(d[:3]), t2[:400])
     return None
